@@ -30,7 +30,7 @@ def make_settings(n, shrink=True, stateful_steps=None):
     return settings(**kw)
 
 
-def drive(rec, strategy, oracle, n, seed, shrink=True, max_sigs=4):
+def drive(rec, strategy, oracle, n, seed, shrink=True, max_sigs=4, shrink_budget=400):
     """Run oracle(case) -> [Failure] over n generated cases.  The oracle itself calls rec.case().
     A failing case is shrunk, recorded under its signature, that signature is then only counted and the
     search continues (so one shallow defect cannot hide another)."""
@@ -39,9 +39,14 @@ def drive(rec, strategy, oracle, n, seed, shrink=True, max_sigs=4):
     rounds = 0
     while remaining > 0 and rounds <= max_sigs:
         before = rec.evaluations
-        state = {"last": None}
+        state = {"last": None, "shrinks": 0}
 
         def body(case):
+            if state["last"] is not None:
+                # a failure is known and we are shrinking: bound the effort (Hypothesis has no shrink budget of its own)
+                state["shrinks"] += 1
+                if state["shrinks"] > shrink_budget and case != state["last"].case:
+                    return
             fails = rec.triage(oracle(case))
             fresh = []
             for f in fails:
